@@ -41,6 +41,8 @@ type Obligation struct {
 }
 
 type FnVerifier struct {
+	goCount       int
+	goStmts       int // go statements met in the function under contract (and the helpers executed as part of it)
 	detached      map[ssa.Value]bool // results of slice-to-array-pointer conversions
 	loopOrdinals  map[int]bool // loop ordinals met in the function and the new helpers executed as part of it
 	eng           *Engine
@@ -548,6 +550,7 @@ func (fr *Frame) afterLoopAsserts(from, to *ssa.BasicBlock, st *State, cond stri
 			o.Extra = extra
 			o.Group = as.Cl.Group
 			v.siteCover(st, o)
+			v.anteCovers(st, env, o, as.Cl.Expr, cond)
 			v.assertHits[as.Label]++
 		}
 	}
@@ -725,6 +728,62 @@ func (li *loopInfo) definedInHeader(x ssa.Value) bool {
 	return ok && in.Block() == li.header
 }
 
+// loopTrackedKeys: ghost keys of the tracked callees (opt track) that are called inside loop li -
+// directly, or possibly through a helper executed as part of this function.
+func (fr *Frame) loopTrackedKeys(li *loopInfo) []KeyInfo {
+	v := fr.v
+	if !fr.transparent || v.fc == nil || v.fc.Opts["track"] == "" {
+		return nil
+	}
+	tracked := map[string]bool{}
+	for _, t := range strings.Fields(v.fc.Opts["track"]) {
+		tracked[t] = true
+	}
+	hit := map[string]bool{}
+	for _, b := range li.blocks {
+		for _, in := range b.Instrs {
+			var c *ssa.CallCommon
+			switch x := in.(type) {
+			case *ssa.Call:
+				c = x.Common()
+			case *ssa.Defer:
+				c = x.Common()
+			}
+			if c == nil {
+				continue
+			}
+			if c.IsInvoke() {
+				if tracked[c.Method.Name()] {
+					hit[c.Method.Name()] = true
+				}
+			} else if f, ok := c.Value.(*ssa.Function); ok {
+				if tracked[f.Name()] {
+					hit[f.Name()] = true
+				}
+				if v.eng.isNewHelper(f) {
+					for t := range tracked {
+						hit[t] = true // a helper executed as part of this function may make any of the calls
+					}
+				}
+			}
+		}
+	}
+	var out []KeyInfo
+	var keys []string
+	for k := range v.reg.sort {
+		keys = append(keys, k)
+	}
+	sort.Strings(keys)
+	for _, k := range keys {
+		for t := range hit {
+			if k == "GH!ncalls!"+t || strings.HasPrefix(k, "GH!lastarg!"+t+"!") || strings.HasPrefix(k, "GH!lastres!"+t+"!") {
+				out = append(out, KeyInfo{Key: k, Ghost: v.reg.sort[k]})
+			}
+		}
+	}
+	return out
+}
+
 func (fr *Frame) enterLoop(b *ssa.BasicBlock, li *loopInfo, st *State) *State {
 	v := fr.v
 	if li.spec == nil || len(li.spec.Invariants) == 0 {
@@ -745,6 +804,16 @@ func (fr *Frame) enterLoop(b *ssa.BasicBlock, li *loopInfo, st *State) *State {
 	li.pre = pre.clone()
 	st = st.clone()
 	mods := li.mods
+	// the ghost counters of tracked calls (opt track: ncalls / lastarg / lastres) change in a loop
+	// that makes such a call
+	if tk := fr.loopTrackedKeys(li); len(tk) > 0 {
+		m2 := newModSet()
+		m2.union(mods)
+		for _, ki := range tk {
+			m2.add(ki)
+		}
+		mods = m2
+	}
 	for _, ki := range mods.Keys {
 		v.ensureKey(ki)
 	}
@@ -757,6 +826,13 @@ func (fr *Frame) enterLoop(b *ssa.BasicBlock, li *loopInfo, st *State) *State {
 		v.havocked = append(v.havocked, fmt.Sprintf("loop %d of %s (ALL: %s)", li.ordinal, fr.fn.Name(), strings.Join(mods.Why, "; ")))
 	}
 	v.havocKeys(st, mods)
+	if mods.All {
+		// (a havoc of everything keeps the function's own counters: callees cannot change them - but
+		// this loop does)
+		for _, ki := range fr.loopTrackedKeys(li) {
+			st.heaps[ki.Key] = v.smt.fresh(ki.Key, ki.Ghost)
+		}
+	}
 	if !mods.All {
 		lf := v.eng.loopFrameInfo(li)
 		for k, ki := range mods.Keys {
@@ -1046,8 +1122,17 @@ func (fr *Frame) execInstr(st *State, in ssa.Instruction) {
 			}
 		}
 		fr.checkFrozen(st, x)
+		sargs := []Val{{T: val}}
+		if _, isField := x.Addr.(*ssa.FieldAddr); isField && v.fc != nil && len(v.fc.Asserts) > 0 && fr.transparent {
+			// the value being replaced (for "assert … at store F" clauses that compare old and new)
+			if addr.Loc != nil {
+				sargs = append(sargs, Val{T: v.loadLoc(st, addr.Loc)})
+			} else {
+				sargs = append(sargs, Val{T: v.loadPtr(st, addr, deref(x.Addr.Type()))})
+			}
+		}
 		v.storePtr(st, addr, deref(x.Addr.Type()), val)
-		fr.siteAsserts(st, "store", x.Addr, []Val{{T: val}}, x.Pos())
+		fr.siteAsserts(st, "store", x.Addr, sargs, x.Pos())
 	case *ssa.Field:
 		sv := fr.term(st, x.X)
 		_, sT := namedStruct(x.X.Type())
@@ -1144,6 +1229,9 @@ func (fr *Frame) execInstr(st *State, in ssa.Instruction) {
 		st.defers = nil
 	case *ssa.Go:
 		v.smt.note("go statement in " + fr.fn.Name() + ": spawned goroutine not modelled")
+		if fr.transparent {
+			v.goStmts++
+		}
 	case *ssa.Send:
 		fr.execSend(st, x)
 	case *ssa.Select:
@@ -1598,4 +1686,47 @@ func (v *FnVerifier) siteCover(st *State, o *Obligation) {
 	c.Cover = true
 	c.Group = o.Group
 	c.Pos = o.Pos
+}
+
+// anteCovers: an assertion of the form A ==> B (or a conjunction of such) says nothing where A
+// cannot hold: for each antecedent a cover obligation checks that the site is reachable WITH A.
+func (v *FnVerifier) anteCovers(st *State, env *Env, o *Obligation, expr *Node, guard string) {
+	var antes []*Node
+	var walk func(n *Node)
+	walk = func(n *Node) {
+		for n != nil && n.Kind == NParen && len(n.Args) == 1 {
+			n = n.Args[0]
+		}
+		if n == nil || n.Kind != NBinary {
+			return
+		}
+		switch n.Op {
+		case "&&":
+			walk(n.Args[0])
+			walk(n.Args[1])
+		case "==>":
+			antes = append(antes, n.Args[0])
+		}
+	}
+	walk(expr)
+	for k, a := range antes {
+		func() {
+			defer func() {
+				if r := recover(); r != nil {
+					if _, isSpec := r.(specErr); !isSpec {
+						panic(r)
+					}
+				}
+			}()
+			g, extra := env.boolTerm(a)
+			if guard != "" {
+				g = and(guard, g)
+			}
+			c := v.addObl(st, "cover", fmt.Sprintf("ante%d.%s", k, strings.TrimPrefix(strings.TrimPrefix(o.Name, v.unitName()+".assert."), v.unitName()+".ensures.")), not(g), "the antecedent of the clause can hold here", o.Props, token.NoPos)
+			c.Cover = true
+			c.Extra = extra
+			c.Group = o.Group
+			c.Pos = o.Pos
+		}()
+	}
 }
